@@ -333,7 +333,7 @@ func inlinable(g *ssa.Function) bool {
 func hasInlinableCall(f *ssa.Function) bool {
 	found := false
 	allInstrsIn(f, func(in ssa.Instruction) {
-		if call, ok := in.(*ssa.Call); ok && inlinable(call.Call.StaticCallee()) {
+		if call, ok := in.(*ssa.Call); ok && len(walkTargets(call)) > 0 {
 			found = true
 		}
 	})
@@ -345,6 +345,14 @@ type cutFrame struct {
 	retB   *ssa.BasicBlock
 	retI   int
 	parent *cutFrame
+	fn     *ssa.Function // the function walked into (the static callee, or one of the literals a function variable may hold)
+}
+
+func (f *cutFrame) callee() *ssa.Function {
+	if f.fn != nil {
+		return f.fn
+	}
+	return f.call.Call.StaticCallee()
 }
 
 func (f *cutFrame) depth() int {
@@ -357,7 +365,7 @@ func (f *cutFrame) depth() int {
 
 func (f *cutFrame) has(g *ssa.Function) bool {
 	for ; f != nil; f = f.parent {
-		if f.call.Call.StaticCallee() == g {
+		if f.callee() == g {
 			return true
 		}
 	}
@@ -367,7 +375,7 @@ func (f *cutFrame) has(g *ssa.Function) bool {
 func (f *cutFrame) sig() string {
 	s := ""
 	for ; f != nil; f = f.parent {
-		s += fmt.Sprintf("%p/", f.call)
+		s += fmt.Sprintf("%p:%p/", f.call, f.fn)
 	}
 	return s
 }
@@ -435,6 +443,18 @@ func condInfoOf(f *ssa.Function) *condInfo {
 	for k, n := range count {
 		if n >= 2 {
 			ci.multi[k] = true
+		}
+	}
+	// nil tests of the operands of a phi that is itself compared with nil: the path remembers their outcome
+	for p := range ci.phis {
+		if bt, isB := p.Type().Underlying().(*types.Basic); isB && bt.Kind() == types.Bool {
+			continue
+		}
+		for _, e := range p.Edges {
+			for _, cmp := range nilTestsOf(e) {
+				k, _ := condCanon(cmp)
+				ci.multi[k] = true
+			}
 		}
 	}
 	// operands of tracked phis that are themselves conditions elsewhere
@@ -587,6 +607,38 @@ func (q *Cut) Run(c *Ctx) (string, int) {
 			if op, ok := e.phiOp[p]; ok && op != ssa.Value(p) {
 				if t, ok := truth(op, e, d+1); ok {
 					return t != neg, true
+				}
+			}
+		}
+		// `x != nil` on a phi x (an error assigned on several branches, tested once at the end): on this path x is
+		// the operand it received, whose nil-ness an earlier test of that operand may have settled
+		if bo, ok := base.(*ssa.BinOp); ok && (bo.Op == token.EQL || bo.Op == token.NEQ) {
+			var p *ssa.Phi
+			switch {
+			case isNilConst(bo.Y):
+				p, _ = bo.X.(*ssa.Phi)
+			case isNilConst(bo.X):
+				p, _ = bo.Y.(*ssa.Phi)
+			}
+			if p != nil {
+				if op, bound := e.phiOp[p]; bound && op != ssa.Value(p) {
+					isNil, known := false, false
+					switch {
+					case isNilConst(op):
+						isNil, known = true, true
+					case types.Identical(op.Type(), types.Universe.Lookup("error").Type()) && !errMayBeNil(op, 0):
+						isNil, known = false, true
+					default:
+						for _, cmp := range nilTestsOf(op) {
+							k, _ := condCanon(cmp)
+							if kc, ok := e.known[k]; ok {
+								isNil, known = kc.val == (cmp.Op == token.EQL), true
+							}
+						}
+					}
+					if known {
+						return ((bo.Op == token.EQL) == isNil) != neg, true
+					}
 				}
 			}
 		}
@@ -768,15 +820,16 @@ func (q *Cut) Run(c *Ctx) (string, int) {
 					if !ok {
 						continue
 					}
-					h := call.Call.StaticCallee()
-					if !inlinable(h) || parent.has(h) || h == q.Fn {
-						continue
-					}
-					fr := &cutFrame{call, b, i + 1, parent}
-					if h == target {
-						out = append(out, fr)
-					} else if depth < 1 {
-						walk(h, fr, depth+1)
+					for _, h := range walkTargets(call) {
+						if parent.has(h) || h == q.Fn {
+							continue
+						}
+						fr := &cutFrame{call: call, retB: b, retI: i + 1, parent: parent, fn: h}
+						if h == target {
+							out = append(out, fr)
+						} else if depth < 1 {
+							walk(h, fr, depth+1)
+						}
 					}
 				}
 			}
@@ -836,7 +889,7 @@ func (q *Cut) Run(c *Ctx) (string, int) {
 				frameSite[k] = v
 			}
 			for fr := it.stack; fr != nil; fr = fr.parent {
-				if g := fr.call.Call.StaticCallee(); g != nil && g.Parent() != nil {
+				if g := fr.callee(); g != nil && g.Parent() != nil {
 					frameSite[g] = fr.call
 				}
 			}
@@ -845,7 +898,7 @@ func (q *Cut) Run(c *Ctx) (string, int) {
 				frameArgs[k] = v
 			}
 			for fr := it.stack; fr != nil; fr = fr.parent {
-				if g := fr.call.Call.StaticCallee(); g != nil {
+				if g := fr.callee(); g != nil {
 					for i, p := range g.Params {
 						if i < len(fr.call.Call.Args) {
 							frameArgs[p] = fr.call.Call.Args[i]
@@ -984,8 +1037,14 @@ func (q *Cut) Run(c *Ctx) (string, int) {
 				break
 			}
 			if call, isCall := in.(*ssa.Call); isCall && it.stack.depth() < 2 {
-				if g := call.Call.StaticCallee(); inlinable(g) && !it.stack.has(g) && g != q.Fn {
-					pushS(g.Blocks[0], 0, it.e, it.prev, &cutFrame{call, b, i + 1, it.stack})
+				walked := false
+				for _, g := range walkTargets(call) {
+					if !it.stack.has(g) && g != q.Fn {
+						pushS(g.Blocks[0], 0, it.e, it.prev, &cutFrame{call: call, retB: b, retI: i + 1, parent: it.stack, fn: g})
+						walked = true
+					}
+				}
+				if walked {
 					stopped = true
 					break
 				}
